@@ -185,3 +185,36 @@ theorem croppedList_eq_spec (cs : List Color) (size : Sz) (cropArea : Rect) :
     CropIt.newOf_spec _ _ _ (CropIt.cropOf_w_le size cropArea)]
 
 end EG
+
+namespace EG
+
+/-- The top-left corner of the crop used by `Cropped::new` is never negative, so the casts
+`crop_area.top_left.y as usize`, `.x as usize` of the real code never wrap (`toNat` in the model
+is the identity on these values). -/
+theorem CropIt.cropOf_tl_nonneg (size : Sz) (cropArea : Rect) :
+    0 ≤ (CropIt.cropOf size cropArea).tl.x ∧ 0 ≤ (CropIt.cropOf size cropArea).tl.y := by
+  unfold CropIt.cropOf Rect.intersection
+  by_cases ha : 0 < size.w ∧ 0 < size.h <;> by_cases hb : 0 < cropArea.size.w ∧ 0 < cropArea.size.h
+  · rw [Rect.bottomRight_some (r := ⟨Pt.zero, size⟩) ha, Rect.bottomRight_some hb]
+    simp only
+    split
+    · rename_i ho
+      simp only [Pt.zero] at ho
+      rw [Bool.and_eq_true, Rect.overlaps_iff (by omega) (by omega),
+        Rect.overlaps_iff (by omega) (by omega)] at ho
+      simp only [Rect.withCorners, Pt.componentMax, Pt.componentMin, Pt.zero]; omega
+    · simp [Rect.zero, Pt.zero]
+  · rw [Rect.bottomRight_some (r := ⟨Pt.zero, size⟩) ha, Rect.bottomRight_none hb]
+    simp only
+    split
+    · rename_i hc; rw [Rect.contains_iff] at hc; simp only [Pt.zero] at hc; omega
+    · simp [Rect.zero, Pt.zero]
+  · rw [Rect.bottomRight_none (r := ⟨Pt.zero, size⟩) ha, Rect.bottomRight_some hb]
+    simp only
+    split
+    · simp [Pt.zero]
+    · simp [Rect.zero, Pt.zero]
+  · rw [Rect.bottomRight_none (r := ⟨Pt.zero, size⟩) ha, Rect.bottomRight_none hb]
+    simp [Rect.zero, Pt.zero]
+
+end EG
